@@ -219,6 +219,57 @@ def decide(smt_text, workdir, name, timeout_s=20, order=("z3new", "cvc5", "z3old
     return res
 
 
+_STR_KINDS = None
+
+
+def abstract_strings(formulas):
+    """Replace every maximal sub-term whose top symbol is a string-theory operation over String arguments by a
+    fresh constant (consistently).  Sound for refutation-free use: unsat of the result implies unsat of the input."""
+    global _STR_KINDS
+    if _STR_KINDS is None:
+        names = ["Z3_OP_SEQ_CONTAINS", "Z3_OP_SEQ_REPLACE", "Z3_OP_SEQ_REPLACE_RE", "Z3_OP_SEQ_REPLACE_RE_ALL",
+                 "Z3_OP_SEQ_REPLACE_ALL", "Z3_OP_SEQ_INDEX", "Z3_OP_SEQ_LAST_INDEX", "Z3_OP_SEQ_IN_RE", "Z3_OP_STR_TO_INT",
+                 "Z3_OP_INT_TO_STR", "Z3_OP_STRING_LT", "Z3_OP_STRING_LE", "Z3_OP_SEQ_PREFIX", "Z3_OP_SEQ_SUFFIX",
+                 "Z3_OP_SEQ_EXTRACT", "Z3_OP_SEQ_AT", "Z3_OP_SEQ_CONCAT", "Z3_OP_SEQ_LENGTH", "Z3_OP_STRING_UBVTOS",
+                 "Z3_OP_STR_TO_CODE", "Z3_OP_STR_FROM_CODE"]
+        _STR_KINDS = set(getattr(z3, n) for n in names if hasattr(z3, n))
+    strsort = z3.StringSort()
+    table = {}
+    subst = []
+
+    def is_string_op(x):
+        if not z3.is_app(x) or x.decl().kind() not in _STR_KINDS:
+            return False
+        if x.sort() == strsort:
+            return True
+        return any(c.sort() == strsort for c in x.children())
+
+    seen = set()
+
+    def walk(x):
+        i = x.get_id()
+        if i in seen:
+            return
+        seen.add(i)
+        if z3.is_quantifier(x):
+            walk(x.body())
+            return
+        if is_string_op(x):
+            if i not in table:
+                c = z3.Const("strabs!%d" % len(table), x.sort())
+                table[i] = c
+                subst.append((x, c))
+            return
+        if z3.is_app(x):
+            for ch in x.children():
+                walk(ch)
+    for f in formulas:
+        walk(f)
+    if not subst:
+        return list(formulas)
+    return [z3.substitute(f, *subst) for f in formulas]
+
+
 def build_query(ex, o, cache, get_values=None, hops=None):
     roots = [o.pc, o.goal]
     assumptions = relevant_assumptions(ex.assumptions[:o.nassume], roots, cache, hops)
@@ -229,7 +280,7 @@ def build_query(ex, o, cache, get_values=None, hops=None):
     return to_smt2(fs, get_values), len(assumptions)
 
 
-def discharge_all(ex, obligations, workdir, timeout_s=20, jobs=16, both=False, get_values=None, progress=None):
+def discharge_all(ex, obligations, workdir, timeout_s=20, jobs=16, both=False, get_values=None, progress=None, order=None, abstract_first=True):
     """-> dict obligation id -> QueryResult  (status 'unsat' means discharged for expect='unsat')."""
     cache = {}
     texts = []
@@ -246,28 +297,71 @@ def discharge_all(ex, obligations, workdir, timeout_s=20, jobs=16, both=False, g
         if o.kind == "frame":
             # frame goals are pure array reasoning: first try without the path condition (stronger claim)
             pre_txt = to_smt2([z3.Not(o.goal)], None)
-        texts.append((o, txt, pre_txt))
+        abs_txt = None
+        if o.expect == "unsat" and abstract_first:
+            try:
+                asm = relevant_assumptions(ex.assumptions[:o.nassume], [o.pc, o.goal], cache)
+                fs0 = asm + [o.pc, z3.Not(o.goal)]
+                fs = abstract_strings(fs0)
+                if any(not a.eq(b_) for a, b_ in zip(fs0, fs)):
+                    abs_txt = to_smt2(fs, None)
+            except Exception:
+                abs_txt = None
+        texts.append((o, txt, (pre_txt, abs_txt)))
     results = {}
 
     def work(item):
         o, txt, pre = item
         if isinstance(pre, QueryResult):
             return o, pre
+        pre, abs_txt = pre
         if pre is not None:
             r0 = decide(pre, workdir, o.id + "#nopc", timeout_s=min(timeout_s, 10), order=("z3new",), keep=False)
             if r0.status == "unsat":
                 r0.solver = r0.solver + "(no-pc)"
                 return o, r0
-        return o, decide(txt, workdir, o.id, timeout_s=timeout_s, both=both, keep=False)
+        if abs_txt is not None:
+            # string theory abstracted away first (sound for unsat): most obligations of string-handling units are
+            # about the heap / arithmetic and only drag the strings along in their path condition
+            r0 = decide(abs_txt, workdir, o.id + "#nostr", timeout_s=min(timeout_s, 30), order=("z3new",), keep=False)
+            if r0.status == "unsat":
+                r0.solver = r0.solver + "(strings-abstracted)"
+                return o, r0
+        return o, decide(txt, workdir, o.id, timeout_s=timeout_s, both=both, keep=False,
+                         order=tuple(order) if order else ("z3new", "cvc5", "z3old"))
     with ThreadPoolExecutor(max_workers=jobs) as pool:
         for o, r in pool.map(work, texts):
             results[o.id] = r
             o.result = r
             if progress:
                 progress(o, r)
-    # second chance for undecided proof obligations: fewer hypotheses (cone of influence cut at 1, then 2 hops).
+    # second chance (1): abstract the string theory away.  Every maximal sub-term built by a string operation is
+    # replaced by a fresh constant of its sort (the same term by the same constant).  The abstracted formula has at
+    # least the models of the original, so `unsat` carries over; `sat` of the abstraction means nothing.
+    retry = []
+    for o in obligations:
+        r = results.get(o.id)
+        if r is not None and o.expect == "unsat" and r.status == "unknown":
+            try:
+                asm = relevant_assumptions(ex.assumptions[:o.nassume], [o.pc, o.goal], cache)
+                fs = abstract_strings(asm + [o.pc, z3.Not(o.goal)])
+                retry.append((o, to_smt2(fs, None)))
+            except Exception:
+                continue
+    if retry:
+        def work1(item):
+            o, txt = item
+            return o, decide(txt, workdir, o.id + "#nostr", timeout_s=timeout_s, order=("z3new", "z3old"), keep=False)
+        with ThreadPoolExecutor(max_workers=jobs) as pool:
+            for o, r2 in pool.map(work1, retry):
+                old = results[o.id]
+                old.log = list(old.log) + [("nostr:%s" % w, st_, dt) for (w, st_, dt) in r2.log]
+                old.time += r2.time
+                if r2.status == "unsat":
+                    old.status, old.solver = "unsat", (r2.solver or "") + "(strings-abstracted)"
+    # second chance (2) for undecided proof obligations: fewer hypotheses (cone of influence cut at 1, then 2 hops).
     # Dropping hypotheses is sound for `unsat`; a `sat` of the reduced query means nothing and is ignored.
-    for hops in (1, 2):
+    for hops in (1,):
         retry = []
         for o in obligations:
             r = results.get(o.id)
